@@ -231,7 +231,7 @@ namespace Pistache::Http::Mime
                 cursor.advance(1);
             }
 
-            else if (match_literal('q', cursor))
+            else if (cursor.next() == '=' && match_literal('q', cursor))
             {
 
                 if (cursor.eof())
